@@ -10,6 +10,7 @@ from types import MethodType
 import numpy as np
 
 from .helper import create_build_finer_grid_fun
+from ..markovchain.markovchain import cumulate_slices
 from ..markovchain.markovchainlevycopula import MarkovChainLevyCopula
 from ...distribution.sampling import SamplingMethod
 from ...distribution.univariate.uniform import Uniform
@@ -258,7 +259,10 @@ class CouplingLevyCopulaSimulationFixedTimes(CouplingLevyCopulaSimulation):
                 fines_states_values[:, k + 1] = slice_fine_values[-1]
                 coarse_states_values[:, k + 1] = slice_coarse_values[-1]
 
-        return fines_states_values, coarse_states_values
+        # running sums over the product dates (each slice is cumulated from 0)
+        return np.cumsum(fines_states_values, axis=1), np.cumsum(
+            coarse_states_values, axis=1
+        )
 
     def simulate_one_path_with_coupling(self):
         # simulate the jump part first
@@ -313,7 +317,7 @@ class CouplingLevyCopulaSimulationWithJumpTimes(CouplingLevyCopulaSimulation):
         fine_states_increments = fine_mc.states_increments
         fines_states_allvalues = fine_mc.values
         jump_times = fine_mc.times
-        coarse_states_values = np.empty_like(fines_states_allvalues)
+        coarse_states_allvalues = [np.zeros(shape=0) for _ in fines_states_allvalues]
 
         for k, (slice_fine_states, slice_fine_values) in enumerate(
             zip(fine_states_increments, fines_states_allvalues)
@@ -322,10 +326,17 @@ class CouplingLevyCopulaSimulationWithJumpTimes(CouplingLevyCopulaSimulation):
                 slice_coarse_values = self._coupling_states_for_a_slice(
                     slice_fine_states
                 )
-                coarse_states_values[k] = slice_coarse_values
+                coarse_states_allvalues[k] = np.array(slice_coarse_values)
 
-        fines_states_values = np.concatenate(fines_states_allvalues).T
-        coarse_states_values = np.concatenate(coarse_states_values).T
+        # running sums over the product dates; the slices without jump are left out
+        fine_slices = [v for v in cumulate_slices(fines_states_allvalues) if len(v)]
+        coarse_slices = [v for v in cumulate_slices(coarse_states_allvalues) if len(v)]
+        if fine_slices:
+            fines_states_values = np.concatenate(fine_slices, axis=0).T
+            coarse_states_values = np.concatenate(coarse_slices, axis=0).T
+        else:
+            fines_states_values = np.array([])
+            coarse_states_values = np.array([])
 
         return jump_times, fines_states_values, coarse_states_values
 
